@@ -31,7 +31,9 @@ def users():
 
 
 def users_spec():
-    return [{"login": None}, {"login": "u1", "password": "pw1", "home_path": "/d"}, {"login": "u2"}]
+    # every account admits one session: the single session of a history can log in, out and in
+    # again as often as it likes - an earlier login of its own never counts against it
+    return [{"login": None, "maximum_connections": 1}, {"login": "u1", "password": "pw1", "home_path": "/d", "maximum_connections": 1}, {"login": "u2", "maximum_connections": 1}]
 
 
 def gen_history(rnd, n=None):
